@@ -47,6 +47,15 @@ impl CopyHandle {
         let infd = File::open(from)?;
         let metadata = infd.metadata()?;
 
+        // Creating the destination would truncate the source if they
+        // are the same file under another name (./f, a link, ...).
+        if let Ok(tmeta) = fs::metadata(to) {
+            use std::os::unix::fs::MetadataExt;
+            if tmeta.dev() == metadata.dev() && tmeta.ino() == metadata.ino() {
+                return Err(XcpError::InvalidDestination("Source and destination are the same file.").into());
+            }
+        }
+
         if needs_backup(to, config)? {
             let backup = get_backup_path(to)?;
             info!("Backup: Rename {:?} to {:?}", to, backup);
